@@ -229,7 +229,7 @@ def check(ctx):
     updates = [e for e in locs if e not in firsts]
     L = [gsa.atom(a_) for a_ in EP.atoms() if a_.startswith('@iter:%s#' % CH)]
     C_ = [gsa.atom(a_) for a_ in EP.atoms() if a_.startswith('@carried:%s#' % acc)]
-    small = [a_ for a_ in EP.atoms() if re.match(r'^len\(list\(.*child_list\)\) < 2$', a_)]
+    small = [a_ for a_ in EP.atoms() if re.match(r'^len\(.*child_list.*\) < 2$', a_)]
     ctx_ = gsa.conj(*(L + C_ + [gsa.neg(gsa.atom('%s is None' % acc))] + [gsa.neg(gsa.atom(a_)) for a_ in small]))
     r4.check(bool(updates) and bool(L) and bool(C_) and gsa.implies(ctx_, gsa.cond_any(updates)), 'every member after the first narrows the prefix', rel, updates[0].line if updates else f.lineno,
              'the common prefix is not recomputed for every member after the first (updates happen when %s): members that happen to start with the text accumulated so far '
@@ -240,7 +240,7 @@ def check(ctx):
     if not inner:
         raise AnalysisError('_enum_common_prefix: nested word-prefix helper not found')
     listvars = [t.id for n in inner for t, v, st in P.stores_in(n) if isinstance(t, ast.Name) and isinstance(v, ast.List) and not v.elts]
-    spec = [(r'^@', True), (r'^%s is None$' % re.escape(acc), False), (r'^len\(list\(.*child_list\)\) < 2$', False), (r'^\w+ == \w+$', False)] + [(r'^%s$' % re.escape(v_), False) for v_ in listvars]
+    spec = [(r'^@', True), (r'^%s is None$' % re.escape(acc), False), (r'^len\(.*child_list.*\) < 2$', False), (r'^\w+ == \w+$', False)] + [(r'^%s$' % re.escape(v_), False) for v_ in listvars]
     got = gsa.returns_under(EP, gsa.decide_by(spec))
     vals = sorted(set(g[0] for g in got))
     r4.check(vals == ['None'], 'members sharing no word yield the empty prefix', rel, f.lineno,
